@@ -44,15 +44,30 @@ ValidNames == {n \in Names : ValidName(n)}
 PickName == IF Exhaustive THEN Names
             ELSE IF RandomElement(1..(4 + 0 * Len(hist))) = 1 THEN {RandomElement(Names)} ELSE {RandomElement(ValidNames)}
 
+\* names of the buckets that exist directly under p in the open transaction
+Kids(p) == IF tx = NoTx THEN {} ELSE Children(tx, p)
+\* valid names that extend, or are extended by, the name of a bucket already under p (the backend's flat keys of
+\* such siblings share a prefix)
+Kin(p) == {n \in ValidNames : \E c \in Kids(p) : n # c /\ (IsPrefix(n, c) \/ IsPrefix(c, n))}
+\* a new bucket: two times out of three next to a sibling whose name is prefix-related, when there is one
+NewName(p) == IF Exhaustive THEN Names
+              ELSE IF Kin(p) # {} /\ RandomElement(1..3) # 1 THEN {RandomElement(Kin(p))} ELSE PickName
+\* buckets under p whose name is a proper prefix of a sibling's name
+Stems(p) == {c \in Kids(p) : \E c2 \in Kids(p) : c2 # c /\ IsPrefix(c, c2)}
+\* a bucket removal: mostly of a bucket that exists, and among those every second time of a stem
+DelName(p) == IF Exhaustive THEN Names
+              ELSE IF Stems(p) # {} /\ RandomElement(1..2) = 1 THEN {RandomElement(Stems(p))}
+              ELSE IF Kids(p) # {} /\ RandomElement(1..4) # 1 THEN {RandomElement(Kids(p))} ELSE PickName
+
 GNext ==
     \/ \E w \in 1..4 : Begin /\ Log([a |-> "Begin"])
     \/ \E w \in 1..2 : Busy /\ Commit /\ Log([a |-> "Commit"])
     \/ Rollback /\ Log([a |-> "Rollback"])
     \/ Reopen /\ Log([a |-> "Reopen"])
     \/ \E w \in 1..3 : \E n \in PickName : CreateTop(n) /\ Log([a |-> "CreateTop", n |-> n])
-    \/ \E w \in 1..3 : \E p \in Pick(TxPaths), n \in PickName :
+    \/ \E w \in 1..5 : \E p \in Pick(TxPaths) : \E n \in NewName(p) :
           Busy /\ Len(p) < MaxDepth /\ NewBucket(p, n) /\ Log([a |-> "NewBucket", p |-> p, n |-> n])
-    \/ \E w \in 1..2 : \E p \in Pick(TxPaths), n \in PickName :
+    \/ \E w \in 1..2 : \E p \in Pick(TxPaths) : \E n \in DelName(p) :
           Busy /\ Len(p) < MaxDepth /\ DeleteBucket(p, n) /\ Log([a |-> "DeleteBucket", p |-> p, n |-> n])
     \/ \E w \in 1..5 : \E p \in Pick(TxPaths), k \in Pick(Keys), v \in Pick(Vals) :
           Busy /\ Put(p, k, v) /\ Log([a |-> "Put", p |-> p, k |-> k, v |-> v])
@@ -65,6 +80,21 @@ GNext ==
     \* observers in a read transaction (always enabled: no behaviour ends early)
     \/ \E p \in Pick(CmPaths), k \in Pick(Keys) : Observe /\ Log([a |-> "RGet", p |-> p, k |-> k])
     \/ \E p \in Pick(CmPaths), k \in Pick(ScanPrefixes) : Observe /\ Log([a |-> "RScan", p |-> p, k |-> k])
+
+\* A second start (BucketStoreGenKin.cfg): the transaction already holds sibling buckets whose names extend one
+\* another (x, xb, x1 under x), each with an entry - the arrangement in which the backend's flat keys of different
+\* buckets share the longest prefixes.  hist holds the calls that build it, so the real store is driven the same way.
+KX == <<"x">>  KXB == <<"x", "b">>  KX1 == <<"x", "1">>
+GInitKin ==
+    /\ committed = EmptyStore /\ opened = TRUE
+    /\ tx = [b  |-> {<<KX>>, <<KX, KX>>, <<KX, KXB>>, <<KX, KX1>>},
+             kv |-> {<< <<KX, KXB>>, <<"k">>, "v1" >>, << <<KX, KX>>, <<"k">>, "v2" >>, << <<KX, KX1>>, <<"x">>, "v3" >>}]
+    /\ hist = << [a |-> "Begin"], [a |-> "CreateTop", n |-> KX],
+                 [a |-> "NewBucket", p |-> <<KX>>, n |-> KX], [a |-> "NewBucket", p |-> <<KX>>, n |-> KXB],
+                 [a |-> "NewBucket", p |-> <<KX>>, n |-> KX1],
+                 [a |-> "Put", p |-> <<KX, KXB>>, k |-> <<"k">>, v |-> "v1"],
+                 [a |-> "Put", p |-> <<KX, KX>>, k |-> <<"k">>, v |-> "v2"],
+                 [a |-> "Put", p |-> <<KX, KX1>>, k |-> <<"x">>, v |-> "v3"] >>
 
 GSpec == GInit /\ [][GNext]_<<vars, hist>>
 
